@@ -2,12 +2,13 @@
 
 pub mod common;
 
+pub mod c02;
 pub mod c12;
 
 use crate::prop::PropDef;
 
 pub fn all() -> Vec<&'static PropDef> {
-	vec![&c12::DEF]
+	vec![&c02::DEF, &c12::DEF]
 }
 
 pub fn find(id: &str) -> Option<&'static PropDef> {
